@@ -11,7 +11,7 @@
     complete new content, [d0 (File (dest s))] the previous one. *)
 From Coq Require Import List Bool Arith.
 From SV Require Import SM.AtomicWriter SM.AtomicWriterProofs SM.AtomicWriterThms SM.AtomicExit SM.AtomicExitProofs
-  SM.AtomicOpenLoopProofs.
+  SM.AtomicOpenLoopProofs SM.AtomicSameDestProofs.
 Import ListNotations.
 
 (** Old or new, never a mixture; new exactly when the replace has succeeded — at every point of every execution,
@@ -253,3 +253,25 @@ Theorem c12_temp_index_bound_is_tight :
                (false, false)] (start d) in
   assoc (p2 st) = Some 2 /\ assoc (p1 st) = Some 3.
 Proof. exact bound_is_tight. Qed.
+
+(** * Two writers to the same destination (beyond the wording of the property: "different files")
+
+    At every point of every schedule and fault pattern the destination holds the previous contents (nobody has
+    committed yet) or the complete contents of a writer that has committed — never chunks of both; temp names are
+    never shared; every other pre-existing file is untouched.  Which of two committed writers wins is decided by the
+    order of the renames ([c12_same_destination_last_rename_wins]). *)
+Theorem c12_same_destination_no_mixture : forall x d0 s1 s2, dest s1 = dest s2 -> proto_safe x = true -> forall sched,
+  let st := run2t x s1 s2 sched (startt d0) in
+  ((committedt (q1 st) = false /\ committedt (q2 st) = false /\ sdt st (File (dest s1)) = d0 (File (dest s1))) \/
+   (committedt (q1 st) = true /\ sdt st (File (dest s1)) = Some (new s1)) \/
+   (committedt (q2 st) = true /\ sdt st (File (dest s1)) = Some (new s2))) /\
+  (forall i, assoct (q1 st) = Some i -> assoct (q2 st) = Some i -> False) /\
+  (forall n, n <> File (dest s1) -> d0 n <> None -> sdt st n = d0 n).
+Proof. exact proto_same_dest_no_mixture. Qed.
+
+Theorem c12_same_destination_last_rename_wins :
+  let sb := {| dest := 0; body := [7]; tail := []; raise_at := None |} in
+  let seq w := repeat (w, false) 6 in
+  sd (run2 cfg_fixed sc_a1 sb (seq false ++ seq true) (start d_old)) (File 0) = Some [7] /\
+  sd (run2 cfg_fixed sc_a1 sb (seq true ++ seq false) (start d_old)) (File 0) = Some [1].
+Proof. exact same_dest_last_rename_wins. Qed.
